@@ -9,6 +9,7 @@ import itertools
 import math
 import warnings
 from collections import abc
+from numbers import Real
 from typing import (
     Any,
     Callable,
@@ -411,7 +412,7 @@ def force_2d(geojson: Dict[str, Any]) -> Dict[str, Any]:
     assert "coordinates" in geojson
 
     def is_scalar(x):
-        return isinstance(x, (int, float))
+        return isinstance(x, Real)  # int, float, numpy scalars
 
     def go(x):
         if is_scalar(x):
